@@ -59,26 +59,29 @@ def emdVersion (f : Obj) : Option (Int × Int × Int) :=
     | _ => none
   | _, _ => none
 
-/-- `_write_from_root(file, root, data, tree)` -/
-def writeFromRoot (f : Obj) (root : Tree) (target : List String) (opt : TreeOpt) : R Obj := do
+/-- the root group `_write_from_root` builds, with the selected part of the tree inside it -/
+def rootFilled (root : Tree) (target : List String) (opt : TreeOpt) : R Obj :=
   -- the root itself (its tag is set to 'root' again; Root's group type already is 'root')
   let rootgroup := nodeGroup { root.info with gtype := "root" }
-  let filled ←
-    match target with
-    | [] =>
+  match target with
+  | [] =>
+    match opt with
+    | .no => pure rootgroup
+    | _ => writeTree rootgroup root
+  | _ =>
+    match root.at target with
+    | none => throw (.error "target not in its own tree")
+    | some data =>
       match opt with
-      | .no => pure rootgroup
-      | _ => writeTree rootgroup root
-    | _ =>
-      match root.at target with
-      | none => throw (.error "target not in its own tree")
-      | some data =>
-        match opt with
-        | .no => writeSingleNode rootgroup data.info
-        | .yes => do
-          let c ← writeNodeFull data
-          createIn rootgroup data.name c
-        | .below => writeTree rootgroup data
+      | .no => writeSingleNode rootgroup data.info
+      | .yes => do
+        let c ← writeNodeFull data
+        createIn rootgroup data.name c
+      | .below => writeTree rootgroup data
+
+/-- `_write_from_root(file, root, data, tree)`: one new top-level group -/
+def writeFromRoot (f : Obj) (root : Tree) (target : List String) (opt : TreeOpt) : R Obj := do
+  let filled ← rootFilled root target opt
   createIn f root.name filled
 
 /-- entries of a node's own metadata bundle, as written by `Node.to_h5` -/
@@ -154,16 +157,17 @@ def overThenAppend (dt : List String) (rootgroup : Obj) (target : List String) (
     atPath rg1 target (fun g => appendBranch dt over g data)
   else pure rg1
 
-/-- the append dispatch of `write` once the file is open in 'a' mode -/
-def appendInto (dt : List String) (f : Obj) (root : Tree) (target : List String) (over : Bool)
-    (opt : TreeOpt) (emdpath : Option String) : R Obj := do
+/-- the append dispatch of `write` for the three cases that rewrite an existing root group: returns the name of
+    that root group and its new value (nothing else in the file is touched) -/
+def appendCore (dt : List String) (f : Obj) (root : Tree) (target : List String) (over : Bool)
+    (opt : TreeOpt) (emdpath : Option String) : R (String × Obj) := do
   let data ← match root.at target with
     | some d => pure d
     | none => throw (.error "target not in its own tree")
   let isRoot := target.isEmpty
   let inFile := (rootGroups f).contains root.name
   match inFile, emdpath with
-  | false, none => writeFromRoot f root target opt
+  | false, none => throw (.error "unreachable: handled by appendInto")
   | false, some ep =>
     match parseEmdpathWrite ep with
     | none => throw (.error "bad emdpath")
@@ -184,7 +188,7 @@ def appendInto (dt : List String) (f : Obj) (root : Tree) (target : List String)
                   let c ← writeNodeFull data
                   createIn g data.name c)
               | .below => atPath rootgroup tp (fun g => writeTree g data)
-          pure (f.setKids (areplace rootname rg' f.kids))
+          pure (rootname, rg')
   | true, none =>
     match alookup root.name f.kids with
     | none => throw (.error "unreachable")
@@ -208,7 +212,7 @@ def appendInto (dt : List String) (f : Obj) (root : Tree) (target : List String)
                 createIn g data.name c)
             | .no => atPath rootgroup wp (fun g => writeSingleNode g data.info)
             | .below => atPath rootgroup wp (fun g => writeTree g data))
-      pure (f.setKids (areplace root.name rg' f.kids))
+      pure (root.name, rg')
   | true, some ep =>
     match parseEmdpathWrite ep with
     | none => throw (.error "bad emdpath")
@@ -253,7 +257,17 @@ def appendInto (dt : List String) (f : Obj) (root : Tree) (target : List String)
                     | none => throw (.error "target not in runtime tree")
                     | some d' => overThenAppend dt rootgroup tp d' over opt)
                   | none => throw (.error "target not downstream of source")
-          pure (f.setKids (areplace root.name rg' f.kids))
+          pure (root.name, rg')
+
+/-- the append dispatch of `write` once the file is open in 'a' mode -/
+def appendInto (dt : List String) (f : Obj) (root : Tree) (target : List String) (over : Bool)
+    (opt : TreeOpt) (emdpath : Option String) : R Obj :=
+  if !(rootGroups f).contains root.name && emdpath.isNone then
+    -- the root is not in the file and no emdpath: a new tree is written
+    writeFromRoot f root target opt
+  else do
+    let (nm, rg') ← appendCore dt f root target over opt emdpath
+    pure (f.setKids (areplace nm rg' f.kids))
 
 inductive ModeClass where
   | write | overwrite | append | appendover
@@ -269,7 +283,7 @@ def classifyMode (m : String) : Option ModeClass :=
 
 def fsLookup (fs : FS) (p : String) : Option FileState := alookup p fs
 def fsSet (fs : FS) (p : String) (s : FileState) : FS := aset p s fs
-def fsErase (fs : FS) (p : String) : FS := aerase p fs
+def fsErase (fs : FS) (p : String) : FS := aeraseAll p fs
 
 /-- "emdpath implies append mode" -/
 def effectiveMode (mode : String) (emdpath : Option String) : String :=
